@@ -978,4 +978,114 @@ example : (⟨0, 1, 0, 1, 0, 0, 0, 0, 1⟩ : M3 Int).Orthonormal ∧ (⟨0, 1, 0
 example : fixRotations 2 [[[0, 1], [1, 0]], [[0, 1], [1, 0]], [[1, 0], [0, 1]]] [true, true, false] =
     some [[[1, 0], [0, 1]], [[0, -1], [1, 0]], [[1, (0 : Int)], [0, 1]]] := by decide
 
+/-! ## deepen7: group structure of proper rotations and of the quaternion map -/
+section deepen7
+variable {α : Type} [CommRing α]
+
+/-- composing two returned rotations gives again an orthonormal, `det = +1` matrix -/
+theorem proper_mul_closed (A B : M3 α) (hA : A.Proper) (hB : B.Proper) : (A.mul B).Proper :=
+  hA.mul hB
+
+/-- the transpose of a proper rotation is a proper rotation -/
+theorem proper_tr_closed (A : M3 α) (hA : A.Proper) : A.tr.Proper :=
+  ⟨⟨by rw [M3.tr_tr]; exact hA.1.2, by rw [M3.tr_tr]; exact hA.1.1⟩, by rw [M3.det_tr]; exact hA.2⟩
+
+/-- the transpose is *the* inverse: any right inverse of an orthonormal matrix equals its transpose -/
+theorem orthonormal_inverse_unique (A B : M3 α) (hA : A.Orthonormal) (h : A.mul B = M3.id) : B = A.tr := by
+  have h1 : A.tr.mul (A.mul B) = A.tr.mul M3.id := by rw [h]
+  rw [← M3.mul_assoc, hA.1, M3.id_mul, M3.mul_id] at h1
+  exact h1
+
+/-- matrix product acts on vectors by composition -/
+theorem mulVec_mul (A B : M3 α) (v : α × α × α) : (A.mul B).mulVec v = A.mulVec (B.mulVec v) := by
+  obtain ⟨v1, v2, v3⟩ := v
+  simp only [M3.mul, M3.mulVec, Prod.mk.injEq]
+  and_intros <;> ring
+
+/-- orthonormal matrices preserve inner products (hence lengths and angles) -/
+theorem orthonormal_preserves_dot (A : M3 α) (hA : A.Orthonormal) (u v : α × α × α) :
+    dot3 (A.mulVec u) (A.mulVec v) = dot3 u v := by
+  obtain ⟨a, b, c, d, e, f, g, h', i⟩ := A
+  obtain ⟨u1, u2, u3⟩ := u
+  obtain ⟨v1, v2, v3⟩ := v
+  simp only [M3.Orthonormal, M3.tr, M3.mul, M3.id, M3.mk.injEq] at hA
+  obtain ⟨⟨h1, h2, h3, h4, h5, h6, h7, h8, h9⟩, _⟩ := hA
+  simp only [dot3, M3.mulVec]
+  linear_combination (u1 * v1) * h1 + (u1 * v2) * h2 + (u1 * v3) * h3 + (u2 * v1) * h4 + (u2 * v2) * h5
+    + (u2 * v3) * h6 + (u3 * v1) * h7 + (u3 * v2) * h8 + (u3 * v3) * h9
+
+/-- the conjugate quaternion goes to the transposed matrix (whatever the scale `s`) -/
+theorem quat_rot_conj_tr (s : α) (q : Q4 α) : quatToMat s q.conj = (quatToMat s q).tr := by
+  simp only [Q4.conj, quatToMat, M3.tr, M3.mk.injEq]
+  and_intros <;> ring
+
+/-- the quaternion norm is multiplicative, so unit quaternions are closed under the Hamilton product -/
+theorem normSq_mul (p q : Q4 α) : normSq (p.mul q) = normSq p * normSq q := by
+  simp only [normSq, Q4.mul]; ring
+
+/-- the norm is invariant under conjugation and negation -/
+theorem normSq_conj_neg (q : Q4 α) : normSq q.conj = normSq q ∧ normSq q.neg = normSq q := by
+  simp only [normSq, Q4.conj, Q4.neg]; constructor <;> ring
+
+/-- a unit quaternion times its conjugate is the identity quaternion (first row of every shipped set) -/
+theorem quat_mul_conj (q : Q4 α) (hq : normSq q = 1) : q.mul q.conj = ⟨1, 0, 0, 0⟩ := by
+  obtain ⟨w, x, y, z⟩ := q
+  simp only [normSq] at hq
+  simp only [Q4.mul, Q4.conj, Q4.mk.injEq]
+  and_intros <;> grind
+
+/-- the product of two unit quaternions is again turned into a proper rotation -/
+theorem quat_rot_mul_proper (p q : Q4 α) (hp : normSq p = 1) (hq : normSq q = 1) :
+    (quatToMat 2 (p.mul q)).Proper :=
+  quat_rot_proper _ (by rw [normSq_mul, hp, hq, one_mul])
+
+/-- cone sampling with tilt `b = 0` and no final roll: the `zyx` matrix is the rotation about `z` alone -/
+theorem euler_zyx_tilt_zero (ca sa : α) : eulerZYX ca sa 1 0 1 0 = rotZ ca sa := by
+  simp only [eulerZYX, rotX, rotY, rotZ, M3.mul, M3.mk.injEq]
+  and_intros <;> ring
+
+/-- a rotation about `z` keeps the default axis `(0,0,1)` fixed -/
+theorem rotZ_fixes_axis (c s : α) : (rotZ c s).mulVec (0, 0, 1) = (0, 0, 1) := by
+  simp only [rotZ, M3.mulVec, Prod.mk.injEq]
+  and_intros <;> ring
+
+/-- flipping the last column twice restores the matrix (the `det < 0` fix is an involution) -/
+theorem negLastCol_involutive (A : M3 α) : A.negLastCol.negLastCol = A := by
+  cases A; simp only [M3.negLastCol, neg_neg]
+
+end deepen7
+
+example : normSq (⟨0, 1, 0, 0⟩ : Q4 Int) = 1 ∧ (M3.id : M3 Int).Proper ∧
+    (⟨0, 1, 0, 0⟩ : Q4 Int).mul (⟨0, 1, 0, 0⟩ : Q4 Int).conj = ⟨1, 0, 0, 0⟩ := by
+  simp only [normSq, M3.Proper, M3.Orthonormal, M3.tr, M3.mul, M3.id, M3.det, Q4.mul, Q4.conj, M3.mk.injEq, Q4.mk.injEq]
+  decide
+
+section deepen7lookup
+variable {β : Type} [Ring β] [LinearOrder β] [IsStrictOrderedRing β]
+
+/-- if the table holds a set whose nominal angle is exactly the request, the chosen set has that angle -/
+theorem closestSet_exact (table : List (String × Nat × β)) (req : β) (e x : String × Nat × β)
+    (h : closestSet table req = some e) (hx : x ∈ table) (hreq : x.2.2 = req) : e.2.2 = req := by
+  have h2 := (closestSet_spec table req e h).2 x hx
+  rw [hreq, sub_self, abs_zero] at h2
+  have h3 : |req - e.2.2| = 0 := le_antisymm h2 (abs_nonneg _)
+  exact (sub_eq_zero.mp (abs_eq_zero.mp h3)).symm
+
+omit [IsStrictOrderedRing β] in
+/-- a one-entry table returns that entry for every request -/
+theorem closestSet_singleton (e : String × Nat × β) (req : β) : closestSet [e] req = some e := rfl
+
+end deepen7lookup
+
+/-- every request at or above the coarsest shipped angle (62.80°) selects the 24-member set `c48u1` -/
+theorem closest_shipped_coarsest (req : Int) (h : 6280 ≤ req) :
+    closestSet shipped req = some ("c48u1.npy", 24, 6280) := by
+  obtain ⟨e, he, hmem, hmin⟩ := closest_shipped_spec req
+  have hle : ∀ x ∈ shipped, x.2.2 ≤ 6280 := by decide +kernel
+  have huniq : ∀ x ∈ shipped, 6280 ≤ x.2.2 → x = ("c48u1.npy", 24, 6280) := by decide +kernel
+  have h1 := hmin ("c48u1.npy", 24, 6280) (by decide +kernel)
+  have h2 := hle e hmem
+  rw [abs_of_nonneg (by omega), abs_of_nonneg (by simp only; omega)] at h1
+  rw [he, huniq e hmem (by simp only at h1; omega)]
+
 end Pm.C07
